@@ -153,6 +153,20 @@ pub fn run(op: &str, a: &[String]) -> Vec<String> {
             let sans: Vec<String> = if a[0] == "-" { vec![] } else { a[0].split(',').map(|x| x.to_string()).collect() };
             let id = if a[1] == "default" {
                 Identity::self_signed(&sans)
+            } else if let Some(spec) = a[1].strip_prefix("at") {
+                // `at<offset secs>:<d days | o offset secs | a not_after as offset from now>`: the
+                // validity starts `offset` seconds from now (negative = backdated)
+                let (off, how) = spec.split_once(':').expect("at<offset>:<how>");
+                let now = ::time::OffsetDateTime::now_utc();
+                let nb = now + ::time::Duration::seconds(off.parse().unwrap());
+                let b = Identity::self_signed_builder().subject_alt_names(&sans);
+                let v: i64 = how[1..].parse().unwrap();
+                match &how[..1] {
+                    "d" => b.not_before(nb).validity_days(v as u32).build(),
+                    "o" => b.not_before(nb).offset_from_not_before(::time::Duration::seconds(v)).build(),
+                    "p" => b.validity_period(nb, now + ::time::Duration::seconds(v)).build(),
+                    _ => b.not_before(nb).not_after(now + ::time::Duration::seconds(v)).build(),
+                }
             } else {
                 Identity::self_signed_builder()
                     .subject_alt_names(&sans)
@@ -387,6 +401,11 @@ pub fn generate(prop: &str, thorough: bool, rng: &mut Rng, emit: &mut Emit) {
                 for days in ["0", "1", "13", "14", "15", "365"] {
                     emit("identity.check", vec![s(sans), s(days)]);
                 }
+            }
+            // validity that does not start now: backdated / future start x each way of giving the end
+            for spec in ["at-172800:d14", "at-172800:d12", "at-3600:d14", "at86400:d7", "at-86400:d1", "at-60:o1209600",
+                         "at-86400:o1209601", "at-7200:a1202400", "at-7200:a1202401", "at-10:p864000", "at3600:p90000"] {
+                emit("identity.check", vec![s("localhost"), s(spec)]);
             }
             for n in 0..=5 {
                 emit("pem.rt", vec![s(n), s(rng.below(1 << 30))]);
